@@ -262,6 +262,13 @@ func foreignCases(c *hx.Ctx, cfg gc.Cfg) {
 					gptOK = false
 				}
 			}
+			// UEFI 2.10 section 5.3.1: "a minimum of 16,384 bytes of space must be reserved for the GPT Partition Entry Array" -
+			// the Lean specification GptValid demands it (entry array LBA * lss + 16384 <= FirstUsableLBA * lss), the shared Go
+			// validator does not look at it; after Write the primary array is at LBA 2
+			if uint64(2*lss+16384) > fd*uint64(lss) {
+				gptOK = false
+				c.Stat("foreign.less-than-16KiB-reserved")
+			}
 			c.Impl(id, "res=ok", "ws="+gc.WriteLogStr(dn), "parts="+gc.LibPartsStr(t.Partitions),
 				fmt.Sprintf("geo=%d,%d,%d,%d,%d", fieldU(t, "primaryHeader"), fieldU(t, "secondaryHeader"), fieldU(t, "firstDataSector"), fieldU(t, "lastDataSector"), fieldU(t, "partitionArraySize")),
 				"wf="+b2s(wf), "uw="+b2s(uw), "rb="+rb, "rt="+b2s(rt), "valid="+b2s(gptOK))
